@@ -200,6 +200,25 @@ def kernelNew (kind : Kind) (m : Method α) (X : List (List α)) (nb : List (Lis
 
 end
 
+/-- `Kernel<F>` = `KernelBase { inner, method }`: the matrix together with the kernel method it was built
+with (`method` is public and read by the users of a kernel, e.g. the SVM prediction) -/
+structure Built (α : Type) where
+  inner : Inner α
+  method : Method α
+
+/-- `KernelBase::is_linear` -/
+def Built.isLinear {α : Type} (K : Built α) : Bool := K.method.isLinear
+
+section
+variable {α : Type} [Add α] [Sub α] [Mul α] [Div α] [Neg α] [OfNat α 0] [Transc α] [KPow α]
+
+/-- `Kernel::new` as a whole: `Kernel { inner, method: params.method.clone() }` — the parameters enter the
+matrix and the `method` field unchanged (no sanitising of bandwidth, constant or degree) -/
+def kernelBuild (kind : Kind) (m : Method α) (X : List (List α)) (nb : List (List Nat)) : Option (Built α) :=
+  (kernelNew kind m X nb).map fun I => ⟨I, m⟩
+
+end
+
 section
 variable {α : Type} [Add α] [Mul α] [Neg α] [OfNat α 0]
 
